@@ -148,7 +148,7 @@ func FuzzTrie(f *testing.F) {
 }
 
 func init() {
-	pb.Register("trie_queries", pb.Options{Base: 10000,
+	pb.Register("trie_queries", pb.Options{Twins: 3, Base: 10000,
 		Required: []string{"pattern is a proper suffix of another and both occur", "multi-byte pattern in prefix search with >= 2 results", "invalid-UTF-8 text", "queue grew (wide pattern set)", "fuzzy search returned a pattern", "no occurrence", "failure links rebuilt after further inserts", "more than 256 occurrences"},
 		Rule:     "pattern sets built by construction from a drawn core string (prefixes, suffixes, infixes, duplicates, extensions), random sets, wide sets (12/25/45 distinct first runes), the left-merge and touching shapes; one third of the cases build the failure links incrementally (Insert, Build, Insert, Build); alphabets of 5-14 runes of widths 1-4 always containing U+FFFD; texts = concatenations of patterns, near-misses and filler, one third with damaged UTF-8 (deleted/substituted bytes, invalid chunks, cut runes); keys = prefixes, suffix-overlaps, near-misses; oracle: byte-level brute force (Match <=> some occurrence, FindAll multiset, PrefixSearch set without duplicates, FuzzySearch subset of patterns, no panic); non-trivial = >= 2 occurrences that overlap or nest"},
 		trieg.Gen, runTrie)
